@@ -162,6 +162,8 @@ class Scen:
                 kw["timeout"] = timeout
             if post:
                 kw["data"] = b"B" * 200_000
+                if self.case.get("upload_after_100"):
+                    kw["expect100"] = True
             async with self.session.request("POST" if post else "GET", "http://svc.test" + path, **kw) as resp:
                 if hold:
                     self.holding = True
@@ -215,7 +217,7 @@ class Scen:
         peer = ScriptPeer(self, len(self.conns), None)
         ct, st = pair(self.loop, proto, peer)
         self.conns.append((ct, st, peer))
-        if self.phase == "body-write" and asyncio.current_task(self.loop) is self.tasks.get("main"):
+        if self.phase == "body-write" and asyncio.current_task(self.loop) is self.tasks.get("main") and not self.case.get("upload_after_100"):
             ct.kernel_full = True
             ct.set_write_buffer_limits(high=1024, low=256)
         proto.connection_made(ct)
@@ -234,6 +236,17 @@ class Scen:
             while peer.answered < len(reqs):
                 m = reqs[peer.answered]
                 path = m.target.decode()
+                if path == "/main" and self.case.get("upload_after_100") and not m.complete:
+                    # "100 Continue" at once; the upload then crawls (socket buffer full) for 4 s before the peer reads on
+                    if not getattr(self, "continue_sent", False):
+                        self.continue_sent = True
+                        self.continue_at = self.loop.time()       # 0 unless the schedule let time pass before the peer read the head
+                        ct.kernel_full = True
+                        ct.set_write_buffer_limits(high=1024, low=256)
+                        peer.send(b"HTTP/1.1 100 Continue\r\n\r\n")
+                        self.loop.call_later(4.0, lambda ct=ct: ct.kernel_full and ct.flush_kernel())
+                        acted = True
+                    break
                 if path == "/main" and self.case.get("redirect"):
                     # the first hop is a redirect whose body comes in a later segment than its head
                     if not m.complete:
@@ -370,9 +383,12 @@ class Scen:
         if not self.tasks["main"].done():
             if covered:
                 self.P(f"no-timeout:{self.kind}:{self.phase}", f"the request stalls in phase {self.phase} with {self.kind}={self.T} and never fails (t={self.loop.time():g})")
+        elif case.get("upload_after_100") and self.tasks["main"].done() and (not main or main[0] != "ok") and getattr(self, "continue_at", None) == 0 and self.times.get("main", 99) < 4.0:
+            self.P(f"timeout-while-uploading:{self.kind}", f"{self.kind}={self.T}: the body was still being uploaded (after 100 Continue) when the request ended with {main}; "
+                   f"that timeout kind does not cover the upload")
         elif main and main[0] == "timeout":
             bound = self.T + (1.0 if self.T > 5 else 0.0) + 1e-6 + (2.0 if case.get("slow_consumer") else 0.0)   # noticed at its next read
-            if self.times["main"] > bound:
+            if self.times["main"] > bound and not case.get("upload_after_100"):      # (there the waiting only starts when the upload ends)
                 self.P(f"timeout-late:{self.kind}:{self.phase}", f"{self.kind}={self.T}: failed after {self.times['main']:g}s (bound {bound:g})")
         elif main and main[0] == "ok" and case.get("slow_consumer"):
             self.P(f"total-timeout-not-enforced:{case['slow_consumer']}", f"total={self.T}: the exchange took {self.times.get('main'):g}s (a slow consumer) and ended normally with {main[2]!r}")
@@ -462,6 +478,9 @@ def cases(quick):
     for phase in ("before-status", "mid-length-body"):
         for T in (3.0, 7.5):
             out.append({"name": f"redirect-then-{phase}/total={T:g}", "phase": phase, "timeout": ("total", T), "sibling": False, "faults": ["cancel"], "redirect": True})
+    # Expect: 100-continue, then an upload that takes longer than sock_read / sock_connect: neither covers it
+    for kind in ("sock_read",):
+        out.append({"name": f"upload-after-100/{kind}=3", "phase": "body-write", "timeout": (kind, 3.0), "sibling": False, "faults": [], "upload_after_100": True})
     # the peer is prompt, the application is slow: the total timeout still bounds the exchange, whatever read API is used
     for how in ("read3", "readline", "readchunk", "readuntil"):
         out.append({"name": f"slow-consumer/{how}/total=3", "phase": "before-status", "timeout": ("total", 3.0), "sibling": False, "faults": [], "no_stall": True,
